@@ -329,3 +329,45 @@ PROPS['C05'] = dict(
 PROPS['C05']['fuzz'] = dict(bin='c05f', quick=dict(workers=4, seconds=30, max_len=3000), thorough=dict(workers=8, seconds=900, max_len=4096))
 PROPS['C05']['quick']['workers'] = 6
 PROPS['C05']['technique'] = 'property-based testing (rapidcheck over choice tapes) and coverage-guided fuzzing (libFuzzer, structure-aware: bytes -> choice tape) of the same case function with the oracle inside'
+
+PROPS['C06'] = dict(
+    bin='c06', sources=['props/c06.cc'] + SIMSRC2, unit_objs=UNIT, images=IMGS, engine='rc',
+    quick=dict(workers=6, cases=3000, budget=40, min_nontrivial=100),
+    thorough=dict(workers=16, cases=150000, budget=1200, min_nontrivial=5000),
+    fuzz=dict(bin='c06f', quick=dict(workers=4, seconds=30, max_len=3000), thorough=dict(workers=8, seconds=900, max_len=4096)),
+    technique='property-based testing (rapidcheck over choice tapes) and coverage-guided fuzzing (libFuzzer, structure-aware: bytes -> choice tape) of the same case function with the oracle inside',
+    rule='case = REAL iodine client under ASan+UBSan (-T each type or autodetect, -O, -m or autoprobe, -M, -L, raw mode on/off, receive-buffer residue) + scripted '
+         'server with a response policy: honest for the first k queries (k from {0..3, 4..19, 20..79, whole handshake}), afterwards each query is answered '
+         'hostile with probability 15/40/90 %: no answer, honest answer twice, raw bytes (optionally with the right id), well-formed DNS echoing id and question '
+         'with a hostile answer section (RDLENGTH larger / smaller / 0 / 65535, ancount 0 / too large, 1..260 MX/SRV records with preferences in order / '
+         'shuffled / duplicated / {0,5,10,2480..2510,65530,65535} / random, names with encoded-looking labels / hostile compression / 255 octets, TXT strings '
+         'overrunning RDLENGTH and up to 65 KB, NULL data up to 60 KB, changed record or question type, rcode/TC, truncation, trailing garbage), payloads of the '
+         'right form but hostile content for every handshake step (version, login, address, codec names up to 5000 bytes, codec tests with one bit flipped, '
+         'fragment probes, fragment-size echoes, downstream data up to 60 KB), raw-mode frames of any command/length; in the tunnel phase packets are offered both '
+         'ways. Oracle: (i) no sanitizer report, client back in select() or exited by itself after every datagram (step bound + 25 s wall-clock watchdog); '
+         '(ii) spoofed data answers carrying a complete valid packet with an id outside the three most recent ids or a first name character other than P/p/'
+         'userid are never written to the tun device (controls with matching id and character are counted when delivered). non-trivial iff a hostile answer hit a '
+         'step after the login, or an MX/SRV answer had >= 17 records, or an RDLENGTH lied',
+    engine_text='rapidcheck over choice tapes + libFuzzer; simnet hosting the real iodine client; scripted reference server; ASan+UBSan',
+    bounds='<= 150 virtual s, <= 400 hostile answers per case', trusted_base=TB_SIM,
+    assumptions=AS_SIM + ['uninitialised reads are not detectable (no MSan-instrumented C++ runtime here)'],
+)
+
+PROPS['C12'] = dict(
+    bin='c12', sources=['props/c12.cc'] + SIMSRC2, unit_objs=UNIT, images=IMGS, engine='rc',
+    quick=dict(workers=6, cases=8000, budget=40, min_nontrivial=300),
+    thorough=dict(workers=16, cases=400000, budget=1200, min_nontrivial=10000),
+    fuzz=dict(bin='c12f', quick=dict(workers=4, seconds=30, max_len=3000), thorough=dict(workers=8, seconds=900, max_len=4096)),
+    technique='property-based testing (rapidcheck over choice tapes) and coverage-guided fuzzing (libFuzzer) of a differential case function: identical case, two receive-buffer residues, all observables compared',
+    rule='case = (datagram or whole scenario) + residue B from {ff.., one byte value, random pattern, crafted continuation (labels + tunnel domain + type/class; ttl + '
+         'rdlength + a compressed downstream fragment; a prefixed TXT string / label; random) repeated from the end of the datagram}; residue A is all zero. '
+         'layer 1 (60%): dns_decode in query or answer mode on a 64 KB buffer holding a hostile datagram (generators of C05/C06: names with pointers to / past the '
+         'end, loops, unterminated or over-long names, truncated sections, RDLENGTH lies, TXT overruns, 1..260 MX/SRV records) optionally cut at a random byte, '
+         'caller buffer 4096 or 65536: return value, decoded name, type, id and output bytes must be equal. layer 2 (20% + 20%): the complete C05 scenario '
+         '(real iodined, sessions, hostile history, health probe) or C06 scenario (real iodine client vs scripted server with hostile reply policy) executed twice '
+         'from reset: every datagram the real program sends (exact bytes), every tun write, every system() string and the exit status must be equal. '
+         'non-trivial iff the case contains a residue-sensitive shape (cut / truncated / pointer / past-end / unterminated / RDLENGTH lie / TXT overrun)',
+    engine_text='rapidcheck over choice tapes + libFuzzer; differential execution over receive-buffer residues (simnet fills [n, capacity) of every recv buffer); unit shape for dns_decode',
+    bounds='as C05 / C06', trusted_base=TB_SIM + ['sim/simnet.cc residue filling of recv/recvfrom/recvmsg buffers'],
+    assumptions=AS_SIM + ['stale contents of buffers other than the receive buffer (uninitialised stack) are not controlled by the harness'],
+)
